@@ -311,6 +311,7 @@ Proof.
   - eapply step_abort; eauto.
   - eapply step_return; eauto.
   - simpl in H. inv_some. destruct I as [I_alloc_le0 I_alloc_sorted0 I_tab_st0 I_st_tab0 I_tab_nodup0 I_st_alloc0 I_good0 I_resp_alloc0 I_loop0]. constructor; simpl; auto.
+  - simpl in H. inv_some. exact I.
 Qed.
 
 Lemma run_inv : forall ls s s', Inv s -> run s ls = Some s' -> Inv s'.
